@@ -409,8 +409,18 @@ struct Checker {
                 break;
             case QNumberType::Real: {
                 bool same = (std::memcmp(&n.Real, &ed, 8) == 0) || (n.Real == ed);
-                if (!same || gd != ed || gi != int64_t(ed) || gu != uint64_t(int64_t(ed))) {
+                if (!same || gd != ed) {
                     bad(path, "real coercions");
+                }
+                if (ed >= 9223372036854775808.0 && ed < 18446744073709551616.0) {
+                    // fits an unsigned 64-bit integer but not a signed one: the unsigned reading is the integer part
+                    if (gu != uint64_t(ed)) {
+                        bad(path, "real coercions: GetUInt64 of " + std::to_string(ed) + " gave " + std::to_string(gu));
+                    }
+                } else if (std::fabs(ed) < 9223372036854775808.0) {
+                    if (gi != int64_t(ed) || gu != uint64_t(int64_t(ed))) {
+                        bad(path, "real coercions");
+                    }
                 }
                 break;
             }
@@ -544,7 +554,13 @@ struct Runner {
             }
             case 7: {
                 static const double ds[] = {0.0, -0.0, 1.5, -2.25, 0.1, 1e15, -1e-7, 4611686018427387904.0 / 4, 3.0, -7.0, 100.0};
-                double              d   = ds[e.below(11)];
+                const unsigned      di  = e.below(11);
+                double              d   = ds[di];
+                if (gen2 != 0 && di == 10) {
+                    d = 1e19; // a real between 2^63 and 2^64: exactly representable as an unsigned 64-bit integer
+                } else if (gen2 != 0 && di == 8) {
+                    d = 9223372036854775808.0; // 2^63
+                }
                 if (e.chance(30)) {
                     v = float(d);
                     d = double(float(d));
@@ -579,6 +595,69 @@ struct Runner {
                     case 4: v = StringView<char>{s.c_str(), SizeT(s.size())}; trace += "=StringView;"; break;
                     default: v = VC{s.c_str(), SizeT(s.size())}; trace += "=Value{ptr,len};"; break;
                 }
+            }
+        }
+    }
+
+    // further operations of the second generation (reached through operation 38)
+    void gen2_more(Tgt &t, unsigned how, unsigned size) {
+        MV &m = *t.m;
+        switch (how) {
+            case 4: { // v = ValueType: the value becomes an empty value of that kind, whatever it held
+                static const ValueType kinds[] = {ValueType::Object, ValueType::Array, ValueType::Null, ValueType::True, ValueType::False, ValueType::Undefined};
+                const unsigned         k       = size % 6;
+                *t.v = kinds[k];
+                m    = MV{};
+                m.k  = (MK[]){MK::Obj, MK::Arr, MK::Null, MK::True, MK::False, MK::Undef}[k];
+                trace += "=ValueType;";
+                interesting = true;
+                break;
+            }
+            case 5: // a container appended / merged to itself: an object stays as it is, an array is doubled by Merge and gets itself as a new element by +=
+            case 6: {
+                if (has_ptr(m) || (m.k != MK::Obj && m.k != MK::Arr)) {
+                    break;
+                }
+                const MV before = deep_copy(m);
+                if (how == 5) {
+                    *t.v += static_cast<const VC &>(*t.v);
+                    if (m.k == MK::Arr) {
+                        m.arr.push_back(before);
+                    }
+                    trace += "+=copy(self);";
+                } else {
+                    t.v->Merge(static_cast<const VC &>(*t.v));
+                    if (m.k == MK::Arr) {
+                        for (auto &x : before.arr) {
+                            if (!(x.k == MK::Undef)) {
+                                m.arr.push_back(x);
+                            }
+                        }
+                    }
+                    trace += "Merge(copy self);";
+                }
+                interesting = true;
+                break;
+            }
+            default: { // an own element / member moved to the end of its own array (a += move(a[i])): rotates it to the back, leaves Undefined behind
+                if (m.k != MK::Arr || m.arr.empty() || has_ptr(m)) {
+                    break;
+                }
+                const size_t i = size % m.arr.size();
+                VC          *c = t.v->GetValue(SizeT(i));
+                if (c == nullptr || m.arr[i].k == MK::Arr) { // (an array operand would be concatenated, not appended: kept out)
+                    break;
+                }
+                MV moved = m.arr[i];
+                *t.v += Memory::Move(*c);
+                m.arr[i] = MV{};
+                if (moved.k == MK::Obj && false) {
+                    break;
+                }
+                m.arr.push_back(moved);
+                trace += "+=move(own element);";
+                interesting = true;
+                break;
             }
         }
     }
@@ -1063,7 +1142,11 @@ struct Runner {
                     Tgt            t    = pick_target();
                     const bool     obj  = e.chance(60);
                     const unsigned size = 1 + e.below(9);
-                    const unsigned how  = e.below(4);
+                    const unsigned how  = e.below(10);
+                    if (how >= 4) {
+                        gen2_more(t, how, size);
+                        break;
+                    }
                     VC             tmp{obj ? ValueType::Object : ValueType::Array, SizeT(size)};
                     MV             src;
                     src.k = obj ? MK::Obj : MK::Arr;
